@@ -110,7 +110,7 @@ func (b *builder) start() {
 	if b.config.Title != "" {
 		graphname = b.config.Title
 	}
-	fmt.Fprintln(b, `digraph "`+graphname+`" {`)
+	fmt.Fprintln(b, `digraph "`+escapeForDot(graphname)+`" {`)
 	fmt.Fprintln(b, `node [style=filled fillcolor="#f8f8f8"]`)
 }
 
@@ -129,10 +129,10 @@ func (b *builder) addLegend() {
 	fmt.Fprintf(b, `subgraph cluster_L { "%s" [shape=box fontsize=16`, escapeForDot(title))
 	fmt.Fprintf(b, ` label="%s\l"`, strings.Join(escapeAllForDot(labels), `\l`))
 	if b.config.LegendURL != "" {
-		fmt.Fprintf(b, ` URL="%s" target="_blank"`, b.config.LegendURL)
+		fmt.Fprintf(b, ` URL="%s" target="_blank"`, escapeForDot(b.config.LegendURL))
 	}
 	if b.config.Title != "" {
-		fmt.Fprintf(b, ` tooltip="%s"`, b.config.Title)
+		fmt.Fprintf(b, ` tooltip="%s"`, escapeForDot(b.config.Title))
 	}
 	fmt.Fprintf(b, "] }\n")
 }
@@ -150,7 +150,7 @@ func (b *builder) addNode(node *Node, nodeID int, maxFlat float64) {
 		label = multilinePrintableName(&node.Info)
 	}
 
-	flatValue := b.config.FormatValue(flat)
+	flatValue := escapeForDot(b.config.FormatValue(flat))
 	if flat != 0 {
 		label = label + fmt.Sprintf(`%s (%s)`,
 			flatValue,
@@ -165,7 +165,7 @@ func (b *builder) addNode(node *Node, nodeID int, maxFlat float64) {
 		} else {
 			label = label + " "
 		}
-		cumValue = b.config.FormatValue(cum)
+		cumValue = escapeForDot(b.config.FormatValue(cum))
 		label = label + fmt.Sprintf(`of %s (%s)`,
 			cumValue,
 			strings.TrimSpace(measurement.Percentage(cum, b.config.Total)))
@@ -246,8 +246,8 @@ func (b *builder) addNodelets(node *Node, nodeID int) bool {
 		if w == 0 {
 			continue
 		}
-		weight := b.config.FormatValue(w)
-		nodelets += fmt.Sprintf(`N%d_%d [label = "%s" id="N%d_%d" fontsize=8 shape=box3d tooltip="%s"]`+"\n", nodeID, i, t.Name, nodeID, i, weight)
+		weight := escapeForDot(b.config.FormatValue(w))
+		nodelets += fmt.Sprintf(`N%d_%d [label = "%s" id="N%d_%d" fontsize=8 shape=box3d tooltip="%s"]`+"\n", nodeID, i, escapeTagForDot(t.Name), nodeID, i, weight)
 		nodelets += fmt.Sprintf(`N%d -> N%d_%d [label=" %s" weight=100 tooltip="%s" labeltooltip="%s"]`+"\n", nodeID, nodeID, i, weight, weight, weight)
 		if nts := lnts[t.Name]; nts != nil {
 			nodelets += b.numericNodelets(nts, maxNodelets, flatTags, fmt.Sprintf(`N%d_%d`, nodeID, i))
@@ -273,8 +273,8 @@ func (b *builder) numericNodelets(nts []*Tag, maxNumNodelets int, flatTags bool,
 			w, attr = t.FlatValue(), ""
 		}
 		if w != 0 {
-			weight := b.config.FormatValue(w)
-			nodelets += fmt.Sprintf(`N%s_%d [label = "%s" id="N%s_%d" fontsize=8 shape=box3d tooltip="%s"]`+"\n", source, j, t.Name, source, j, weight)
+			weight := escapeForDot(b.config.FormatValue(w))
+			nodelets += fmt.Sprintf(`N%s_%d [label = "%s" id="N%s_%d" fontsize=8 shape=box3d tooltip="%s"]`+"\n", source, j, escapeTagForDot(t.Name), source, j, weight)
 			nodelets += fmt.Sprintf(`%s -> N%s_%d [label=" %s" weight=100 tooltip="%s" labeltooltip="%s"%s]`+"\n", source, source, j, weight, weight, weight, attr)
 		}
 	}
@@ -287,7 +287,7 @@ func (b *builder) addEdge(edge *Edge, from, to int, hasNodelets bool) {
 	if edge.Inline {
 		inline = `\n (inline)`
 	}
-	w := b.config.FormatValue(edge.WeightValue())
+	w := escapeForDot(b.config.FormatValue(edge.WeightValue()))
 	attr := fmt.Sprintf(`label=" %s%s"`, w, inline)
 	if b.config.Total != 0 {
 		// Note: edge.weight > b.config.Total is possible for profile diffs.
@@ -475,6 +475,18 @@ func min64(a, b int64) int64 {
 		return a
 	}
 	return b
+}
+
+// escapeTagForDot escapes a tag name for use inside a quoted DOT string.
+// Tag names of string labels are "key:value" pairs joined with a literal
+// \n (the DOT line break), which must survive; every other backslash and
+// every double quote is escaped.
+func escapeTagForDot(name string) string {
+	parts := strings.Split(name, `\n`)
+	for i := range parts {
+		parts[i] = escapeForDot(parts[i])
+	}
+	return strings.Join(parts, `\n`)
 }
 
 // escapeAllForDot applies escapeForDot to all strings in the given slice.
